@@ -76,12 +76,13 @@ def c03(tier, seed):
 
 def c09(tier, seed):
     files, names = harness_acq(tier, envs=("a",), kinds=lambda sh: sh.kind == "retry" or "rt" in sh.name, only_blocking=True,
-                               budget=3 if tier == "quick" else 4)
+                               budget=(3 if tier == "quick" else (lambda sh: 4 if sh.n() <= 3 else 3)))
     return checks.run_mirsym_property(
         "C09", tier, seed, files, codes("M_HOLD_AND_WAIT", "M_NOT_ALL_HELD", "M_NOT_COMPLETED", "M_SELF_WAIT"),
         outcome_kinds=("abort", "unwound", "memory-error", "budget", "fatal"),
+        opts={"entry_timeout": 300 if tier == "quick" else 3000},
         assumptions=sys_assumptions + ["eventually-quiet environment: after at most `budget` interference events every contended lock is released and stays free"],
-        bounds=dict(BOUNDS, retry_rounds="bounded by the interference budget 3 (quick) / 4 (thorough)"))
+        bounds=dict(BOUNDS, retry_rounds="bounded by the interference budget 3 (quick) / 4 (thorough; 3 for 4-member shapes)"))
 
 
 def c11(tier, seed):
@@ -154,6 +155,7 @@ def c06(tier, seed):
     acq_text, acq_names = props.gen_acq(tier, envs=("q",), kinds=lambda sh: sh.name in small)
     return checks.run_mirsym_property(
         "C06", tier, seed, {"h_key.rs": text, "h_acq.rs": acq_text}, codes("M_KEY_MODEL", "M_NO_PANIC", "M_TRY_VERDICT", "M_CLOSURE_COUNT", "M_BAD_RELEASE"),
+        opts={"max_paths": 3000000, "entry_timeout": 3600, "sample_p": 0.001 if tier != "quick" else 0.03},
         outcome_kinds=("abort", "unwound", "memory-error", "fatal"),
         assumptions=sys_assumptions + ["reference model: one boolean per thread (key alive); a second modelled thread has its own thread-local storage (natively a real std::thread)"],
         bounds={"history_length": "3 (quick) / 4 (thorough) operations, each followed by a ThreadKey::get() probe whose result is kept or dropped by a symbolic bit",
@@ -202,7 +204,8 @@ def c17(tier, seed):
 def c01(tier, seed):
     from harness import props, gen
     from . import c01 as q
-    text, names = props.gen_acq(tier, envs=("a",), only_blocking=True, budget=3 if tier == "quick" else 4)
+    text, names = props.gen_acq(tier, envs=("a",), only_blocking=True,
+                                budget=(3 if tier == "quick" else (lambda sh: 4 if sh.n() <= 3 else 3)))
     seq_text, seq_names = props.gen_seq(tier, seed, 48 if tier == "quick" else 240)
     shape_private = {}
     for sh in gen.all_shapes(tier):
@@ -258,7 +261,7 @@ def c01(tier, seed):
     return checks.run_mirsym_property(
         "C01", tier, seed, {"h_acq.rs": text, "h_seq.rs": seq_text},
         codes("M_SELF_WAIT", "M_HELD_AT_API_BEGIN", "M_HELD_AT_KEY_BACK", "M_KEY_MODEL", "M_HOLD_AND_WAIT"),
-        opts={"collect_waits": True},
+        opts={"collect_waits": True, "entry_timeout": 300 if tier == "quick" else 3000},
         assumptions=sys_assumptions + [
             "thread-modular argument: every thread is analysed alone against an adversarial environment (any lock it does not hold may be held by others at any raw operation), which over-approximates its behaviour in every interleaving with any other threads; a deadlock state is a choice of one wait point per thread with compatible holdings in which every awaited lock is unavailable because of the other waiting threads",
             "between acquisitions a thread holds nothing (C03, checked on the same runs), so threads with several acquisitions contribute the union of their wait points; critical sections terminate and guards are dropped (premises of the statement)",
